@@ -169,6 +169,8 @@ def _stringish(fn, e) -> bool:
         return _stringish(fn, x.left) or _stringish(fn, x.right)
     if isinstance(x, ast.IfExp):
         return _stringish(fn, x.body) or _stringish(fn, x.orelse)
+    if isinstance(x, ast.Attribute) and x.attr.isupper():
+        return True
     if isinstance(x, ast.Name):
         if x.id.isupper():
             return True
@@ -209,7 +211,7 @@ class Builder:
         if isinstance(e, ast.BinOp) and isinstance(e.op, ast.Mod):
             return Fmt(norm(e.left), expand(fn, e.right), e)
         if isinstance(e, ast.BinOp) and isinstance(e.op, ast.Mult):
-            s, c = (e.left, e.right) if _stringish(fn, e.left) or not _stringish(fn, e.right) else (e.right, e.left)
+            s, c = (e.left, e.right) if (_stringish(fn, e.left) or not _stringish(fn, e.right)) and not (isinstance(e.left, ast.Constant) and isinstance(e.left.value, (int, bool))) else (e.right, e.left)
             if _boolish(fn, c):
                 return Alt(expand(fn, c), self.expr(s, depth), EMPTY)
             return Rep(expand(fn, c), self.expr(s, depth))
